@@ -4,7 +4,7 @@ PROPERTY = "C14"
 LEVEL = "proof"
 CONTRACT_MODULES = ["modeltypes", "config", "models"]
 M = "sqllineage.core.models."
-FUNCTIONS = [M + "Schema.__init__", M + "Schema.__bool__", M + "Schema.__str__", M + "Table.__init__", M + "Table.__str__", M + "Schema.__eq__", M + "Schema.__hash__", M + "Table.__eq__", M + "Table.__hash__", "sqllineage.utils.helpers.escape_identifier_name"]
+FUNCTIONS = [M + "Schema.__init__", M + "Schema.__bool__", M + "Schema.__str__", M + "Table.__init__", M + "Table.__str__", M + "Schema.__eq__", M + "Schema.__hash__", M + "Table.__eq__", M + "Table.__hash__", "sqllineage.utils.helpers.escape_identifier_name", "sqllineage.config._SQLLineageConfigLoader.__getattr__"]
 SITE_CHECKS = [("construction sites and call-time defaults (K3)", lambda repo: sitescan.call_time_defaults(repo, "C14"))]
 EXPLANATION = (
     "Schema.__init__ is proved to implement the fallback chain of the statement (explicit name, else the default schema AS "
@@ -13,9 +13,12 @@ EXPLANATION = (
     "the default per call when the schema is omitted (the repaired import-time default, fix 9f19822), and to ignore the schema "
     "argument for an already qualified name, splitting it at its last dot. Equality/hash by printed name make `S.n` written "
     "out and `n` under default S the same entity. Site obligations: no model/holder constructor has a default argument "
-    "evaluated at import; every Table-family construction passes a Schema built in the same activation or omits it."
+    "evaluated at import; every Table-family construction passes a Schema built in the same activation or omits it. The read "
+    "of the configured default itself (_SQLLineageConfigLoader.__getattr__: the calling thread's scoped override wins, else the "
+    "environment variable, else the built-in default - so both mechanisms of the statement behave as one chain) is verified "
+    "here too, not only assumed from C15."
 )
-TRUSTED = ["pyvc translator", "z3", "C15 contract of SQLLineageConfig.__getattr__ (value read at call time, thread-local override, environment, default)", "uninterpreted str.lower/strip (same normaliser applied on both sides of the equivalence)"]
+TRUSTED = ["pyvc translator", "z3", "uninterpreted str.lower/strip (same normaliser applied on both sides of the equivalence)"]
 ASSUMPTIONS = [
     "which references an extractor turns into tables, and that it hands the unqualified/qualified name text to SqlFluffTable.of / SqlParseTable.of, is extraction code and not decided",
     "equivalence lemma (script under default S == script with S.name written out) is the composition of the proved constructor contracts with equality-by-printed-name; stated, not mechanised as one formula",
@@ -26,7 +29,7 @@ BOUNDED = [
         "name": "C14 native equivalence check (default schema by environment / scoped override vs textual qualification)",
         "script": "replay/c14_native.py",
         "args": [],
-        "bound": "9 scripts x default in {unset, fresh lower-case name, mixed-case name, name already used as qualifier} x {environment variable, scoped override} x {ansi, non-validating, vertica special path}",
+        "bound": "9 scripts x default in {unset, fresh lower-case name, mixed-case name, name already used as qualifier} x {environment variable, scoped override, scoped override while the environment variable names another schema} x {ansi, non-validating, vertica special path}",
     }
 ]
 LEVEL_TEXT = (
